@@ -30,6 +30,17 @@ Section Replay.
     if last_applied =? 0 then st0     (* load_log returns at once *)
     else run S M capply (firstn (last_applied - snap_end) (skipn snap_end log)) st0.
 
+  (** ** compaction concurrent with apply.  do_build_snapshot runs as a spawned future of
+      StateApplyManager: the header's last_index = k is fixed first, the components are asked one
+      after the other while later ApplyRequests keep being delivered (async-raft continues to
+      commit during compaction).  Component [c] may therefore write its records [j c] entries
+      AFTER k; the restart still replays the log from k + 1. *)
+  Definition build_snapshot_racy (hist : list entry) (k : nat) (j : comp -> nat) : list record :=
+    flat_map (fun c => csnap c (run S M capply (firstn (k + j c) hist) (init_node S cinit) c)) build_order.
+
+  Definition restart_racy (hist : list entry) (k : nat) (j : comp -> nat) : node :=
+    start_up (Some (k, build_snapshot_racy hist k j)) hist (length hist).
+
   (** ** the files.  Records and the header are stored as protobuf messages; their encoders are
       abstract (injective by the law [dec_frame (frame (enc r)) = Some r] assumed in the
       theorems). *)
